@@ -7,6 +7,7 @@ import (
 	"runtime"
 	"sort"
 	"time"
+	_ "time/tzdata" // the zone choice must not depend on the host's zoneinfo files
 
 	tmrand "github.com/tendermint/tendermint/libs/rand"
 )
@@ -33,6 +34,17 @@ func Reset(clockChoice, rngChoice int, maps []int) {
 	points = nil
 	nowCalls, rngCalls = 0, 0
 }
+
+var zones = func() []*time.Location {
+	ny, err := time.LoadLocation("America/New_York") // a zone with daylight saving time
+	if err != nil {
+		panic(err)
+	}
+	return []*time.Location{time.UTC, ny}
+}()
+
+// SetZone chooses the host's local time zone for this execution (0 = UTC, 1 = America/New_York).
+func SetZone(z int) { time.Local = zones[z%len(zones)] }
 
 // Points returns the map-range choice points reached since Reset.
 func Points() []Point { return points }
